@@ -80,6 +80,12 @@ def impl_affine(F, bits, axis, gs, x):
     qt = q.qint2 if bits == 2 else q.qint4
     try:
         qb = q.quantize_weight(x, qt, axis, gs)
+        # another weight of the same shape and configuration goes through the library while the first result is alive:
+        # results of different calls must stay independent
+        try:
+            other = q.quantize_weight((x.float().clamp(-100.0, 100.0) * -0.37 + 1.3).to(x.dtype), qt, axis, gs)
+        except Exception:  # noqa
+            other = None
         d = qb.dequantize()
         codes = qb._data.unpack()
         try:
